@@ -300,7 +300,11 @@ func verifH_C04_rules() {
 		t := true
 		s.AdditionalProperties.Has, s.AdditionalProperties.Schema = &t, &SchemaRef{Value: &Schema{}}
 	case 20: // pattern that does not compile (option: DisableSchemaPatternValidation)
-		newSchemaAt(&Schema{Type: &Types{"string"}, Pattern: "("})
+		if verifChoose("typed", 2) == 1 {
+			newSchemaAt(&Schema{Type: &Types{"string"}, Pattern: "("})
+		} else {
+			newSchemaAt(&Schema{Pattern: "("}) // no type: the pattern still applies to every string
+		}
 		if verifChoose("opt", 2) == 1 {
 			opts, disabled = append(opts, DisableSchemaPatternValidation()), true
 		}
